@@ -3,6 +3,7 @@ stratified by the rows of the rule's truth table, and offer generators relative 
 evolving trusted root (histories)."""
 import copy
 
+from . import hostile
 from ..gen import entries as gentries, keys as gkeys, metadata as gmd
 from ..monitors import boundary
 from ..refs import canonjson, models, openpgp, schema
@@ -276,7 +277,10 @@ def evaluate(case, lib, fn=None):
     model, failed = models.root_verdict(trusted, new)
     before = boundary.fingerprint([trusted, new])
     f = fn or lib.authentication.verify_root
-    out = boundary.call(lib, f, trusted, new)
+    with hostile.stdout(case.get("stdout")) as hs:
+        out = boundary.call(lib, f, trusted, new)
+    case["_stdout_write_attempts"] = hs.attempts
+    model = hostile.adjust(model, case.get("stdout"))
     mutated = boundary.fingerprint([trusted, new]) != before
     return model, failed, out, mutated
 
